@@ -62,6 +62,7 @@ package index
 //@ func (*singleWidthIndex).Less
 //@   let cmp := call[bytes.Compare#0]
 //@   call[bytes.Compare#0] assert key_against_digest_of_record_i [C03,C07]: ref(arg0) == ref(digest)
+//@   call[bytes.Compare#0] assert against_the_digest_part_of_the_record [C03,C07]: len(arg1) == s.width - 8
 //@   ensures key_is_not_after_record_i [C03,C07]: result == (cmp <= 0)
 //@   requires bucket [C03,C09]: 8 <= s.width && s.width <= 33554432 && s.len * s.width <= len(s.index)
 //@   requires in_range [C03,C09]: 0 <= i && i < s.len
@@ -147,6 +148,9 @@ package index
 //@   requires bucket [C03,C09]: 8 <= s.width && s.width <= 33554432 && s.len * s.width <= len(s.index) && s.len <= 281474976710656
 
 //@ func (*multiWidthIndex).forEachDigest
+//@   ghost at entry: mark(m) := 0
+//@   ghost after call[append#0]: mark(m) := mark(m) + 1
+//@   loop[0] invariant collects_only_keys [C11]: len(sizes) == mark(m)
 //@   check every_bucket_is_visited [C11]: err == nil ==> rangeindex == len(sizes)
 //@   call[maplookup#0] assume stored_buckets_wellformed: 8 <= value.width && value.width <= 33554432 && value.len * value.width <= len(value.index)
 //@   call[append#0] assert collects_the_widths [C11]: ref(arg0) == ref(sizes) && len(arg1) == 1 && arg1[0] == k
@@ -202,6 +206,9 @@ package index
 //@   call[Writer.Write#0] assert bucket_bytes [C11]: ref(arg1) == ref(s.index)
 
 //@ func (*multiWidthIndex).Marshal
+//@   ghost at entry: mark(m) := 0
+//@   ghost after call[append#0]: mark(m) := mark(m) + 1
+//@   loop[0] invariant collects_only_keys [C11]: len(widths) == mark(m)
 //@   check every_bucket_is_written [C11]: err == nil ==> rangeindex == len(widths)
 //@   implements (github.com/ipld/go-car/v2/index.Index).Marshal
 //@   modifies wn(w)
@@ -237,6 +244,9 @@ package index
 //@   call[maplookup#0] assert bucket_of_next_sorted_code [C11]: key == codes[rangeindex]
 
 //@ func (*MultihashIndexSorted).sortedMultihashCodes
+//@   ghost at entry: mark(m) := 0
+//@   ghost after call[append#0]: mark(m) := mark(m) + 1
+//@   loop[0] invariant collects_only_keys [C11]: len(codes) == mark(m)
 //@   call[append#0] assert collects_the_codes [C11]: ref(arg0) == ref(codes) && len(arg1) == 1 && arg1[0] == code
 //@   closure[0]
 //@     assume sort_slice_indices: 0 <= i && i < len(codes) && 0 <= j && j < len(codes)
@@ -312,6 +322,9 @@ package index
 //@   end
 
 //@ func (*MultihashIndexSorted).ForEach
+//@   ghost at entry: mark(m) := 0
+//@   ghost after call[append#0]: mark(m) := mark(m) + 1
+//@   loop[0] invariant collects_only_keys [C11]: len(sizes) == mark(m)
 //@   check every_bucket_is_visited [C11]: err == nil ==> rangeindex == len(sizes)
 //@   call[append#0] assert collects_the_codes [C11]: ref(arg0) == ref(sizes) && len(arg1) == 1 && arg1[0] == k
 //@   call[maplookup#0] assert bucket_of_next_sorted_code [C11]: key == sizes[rangeindex]
@@ -463,3 +476,7 @@ package index
 
 //@ func newMultiWidthCodedIndex
 //@   ensures fresh_empty_bucket [C11]: result != nil && freshobj(result)
+
+//@ func (digestRecord).write
+//@   call[copy#0] assert the_digest_goes_into_the_slot [C05,C11]: ref(arg0) == ref(buf) && ref(arg1) == ref(d.digest)
+//@   call[littleEndian.PutUint64#0] assert the_offset_follows_the_digest [C05,C11]: arg2 == d.index
